@@ -369,18 +369,47 @@ Definition np_iadd (cur a : arr) : arr + exc :=
   else if negb (broadcastable (a_shape a) (a_shape cur)) then inr ValueError
   else inl (with_data cur (zip_add (a_dt cur) (a_data cur) (bcast_data (a_shape cur) (a_shape a) (a_data a)))).
 
-(* xarray `cur += a` for two DataArrays.  Modelled only when both have dimensions
-   (wavelength, y, x) and a wavelength coordinate: indexes must be equal (MergeError, a ValueError),
-   sizes must match per name (ValueError), then numpy's casting rule (TypeError). *)
+(* xarray `cur += a` for two DataArrays, `cur` a well-formed photon cube (dims (wavelength, y, x), wavelength
+   coordinate).  xarray works by dimension NAME: `a` may have any subset of cur's dimensions in any order (it is
+   transposed / broadcast), with or without a wavelength coordinate.  In this order:
+     - `a` has a wavelength index that differs from cur's        -> MergeError (a ValueError): no re-alignment in place
+     - a shared dimension has another size (no size-1 broadcasting by name) -> ValueError
+     - `a` has a dimension cur does not have                      -> ValueError (dimensions cannot change in place)
+     - numpy's casting rule                                       -> TypeError
+   Not modelled (None): cur of another form, repeated dimension names. *)
+Fixpoint nodup_nat (l : list nat) : bool :=
+  match l with [] => true | h :: t => negb (existsb (Nat.eqb h) t) && nodup_nat t end.
+
+Definition xr_sizes_compat (cur a : arr) : bool :=
+  forallb (fun n => match dim_size a n, nth_error (a_shape cur) n with
+                    | Some s, Some t => Nat.eqb s t
+                    | _, _ => true
+                    end) [0; 1; 2].
+
+(* flat index into `a` of the element with coordinates `co` (indexed by dimension name) *)
+Definition xr_src_index (dims shape co : list nat) : nat :=
+  fold_left (fun acc ds => acc * snd ds + nth (fst ds) co 0) (combine dims shape) 0.
+
+Definition xr_bcast (cur a : arr) (dims : list nat) : list cell :=
+  match a_shape cur with
+  | [w; r; c] =>
+      map (fun i => nth (xr_src_index dims (a_shape a) [Nat.div i (r * c); Nat.modulo (Nat.div i c) r; Nat.modulo i c])
+                        (a_data a) NaN)
+          (seq 0 (w * r * c))
+  | _ => []
+  end.
+
 Definition xr_iadd (cur a : arr) : option (arr + exc) :=
   match a_xr cur, a_xr a with
   | Some xc, Some xa =>
-      if dims_wyx cur && dims_wyx a && has_wl_coord cur && has_wl_coord a
-         && Nat.eqb (length (a_shape cur)) 3 && Nat.eqb (length (a_shape a)) 3 then
-        if negb (opt_eqb zlist_eqb (x_wl xc) (x_wl xa)) then Some (inr ValueError)
-        else if negb (shape_eqb (a_shape cur) (a_shape a)) then Some (inr ValueError)
+      if dims_wyx cur && has_wl_coord cur && Nat.eqb (length (a_shape cur)) 3
+         && Nat.eqb (length (x_dims xa)) (length (a_shape a)) && nodup_nat (x_dims xa) then
+        if (match x_wl xa with Some _ => negb (opt_eqb zlist_eqb (x_wl xc) (x_wl xa)) | None => false end)
+        then Some (inr ValueError)
+        else if negb (xr_sizes_compat cur a) then Some (inr ValueError)
+        else if negb (forallb (fun n => Nat.ltb n 3) (x_dims xa)) then Some (inr ValueError)
         else if negb (iadd_ok tb (a_dt cur) (a_dt a)) then Some (inr TypeError)
-        else Some (inl (with_data cur (zip_add (a_dt cur) (a_data cur) (a_data a))))
+        else Some (inl (with_data cur (zip_add (a_dt cur) (a_data cur) (xr_bcast cur a (x_dims xa)))))
       else None
   | _, _ => None
   end.
